@@ -3,6 +3,7 @@ Real code executed symbolically: NlaIIIFragment.__init__/identify_site/set_site/
 CHICFragment.__init__/identify_site/set_site/is_valid, Fragment.__init__ (from /repo)."""
 from stubs.fakeread import FakeRead
 from spec import c09 as S
+from vlib.sym import pick
 S_ = S
 
 
@@ -74,6 +75,10 @@ def _l4_nla_mirror(X: int, c: int, rev: bool, Lam: int) -> bool:
     return S.check_nla_mirror(FakeRead, X, c, rev, Lam) is None
 
 
+def _SymWindowFasta(base, window):
+    return S_.WindowFasta(base, window, identity_upper=True)
+
+
 def _l5_no_overhang(S: int, rev: bool, window: str) -> bool:
     """
     pre: 0 <= S
@@ -81,6 +86,21 @@ def _l5_no_overhang(S: int, rev: bool, window: str) -> bool:
     pre: len(window) == 7
     post: _
     """
+    return S_.check_nla_no_overhang(FakeRead, _SymWindowFasta, S, rev, window, case_free=True) is None
+
+
+def _l5b_no_overhang_softmasked(S: int, rev: bool, j: int, mask: int) -> bool:
+    """
+    pre: 12 <= S
+    pre: 0 <= j <= 3
+    pre: 0 <= mask <= 15
+    post: _
+    """
+    # the reference CATG next to the read lies in a soft-masked (lower-case) stretch: letters of the motif lower-cased per mask
+    jj = pick([0, 1, 2, 3], j)
+    mm = pick(list(range(16)), mask)
+    motif = ''.join((ch.lower() if (mm >> i) & 1 else ch) for i, ch in enumerate('CATG'))
+    window = 'A' * jj + motif + 'A' * (3 - jj)
     return S_.check_nla_no_overhang(FakeRead, S_.WindowFasta, S, rev, window) is None
 
 
@@ -95,6 +115,7 @@ LEMMAS = [
     dict(name='L3_chic_site_mirror', fn='_l3_chic', engine='E1', timeout=_T, replay='replay.C09:replay'),
     dict(name='L3_chic_orientation', fn='_l3_chic_orientation', engine='E1', timeout=_T, replay='replay.C09:replay'),
     dict(name='L4_nla_mirror', fn='_l4_nla_mirror', engine='E1', timeout=_T, replay='replay.C09:replay'),
+    dict(name='L5b_no_overhang_softmasked', fn='_l5b_no_overhang_softmasked', engine='E1', timeout=_T, replay='replay.C09:replay'),
     dict(name='L5_no_overhang', fn='_l5_no_overhang', engine='E1', timeout=_T, replay='replay.C09:replay',
          cases={'quick': [dict(id='fwd', pre=['rev == False']), dict(id='rev', pre=['rev == True'])]}),
 ]
@@ -106,13 +127,13 @@ PROPERTY = dict(
     bounds=dict(coordinates='unbounded non-negative integers (X, P, Lam symbolic z3 Int)', clip='0..6 soft-clipped bases',
                 motif='arbitrary 4-character string (all unicode code points)', read='16 nt (4 motif + 12 concrete insert)',
                 flags='invert_strand, check_motif, no_umi_cigar_processing, allow_cycle_shift symbolic'),
-    outside=['no_overhang=True with soft-clipped reads or a reference window other than 7 bases (cut_location_offset != -4)', 'lower-case (soft-masked) reference letters in the no_overhang scan', 'reads with indels inside the first 4 bases',
+    outside=['no_overhang=True with soft-clipped reads or a reference window other than 7 bases (cut_location_offset != -4)', 'reads with indels inside the first 4 bases',
              'paired-end variants use one fixed R2 geometry', 'real pysam record storage (replay only)'],
     assumptions=['FakeRead models pysam.AlignedSegment accessors (validated against real reads by stubs/validate.py)',
                  'ground truth geometry: recognised CATG occupies reference [X,X+4); forward read aligned start = X+clip; '
                  'reverse read aligned end = X+4-clip',
                  'CHIC site offsets (2 for trimmed scCHIC layouts, 1 for untrimmed) are protocol constants of the spec',
                  'with no_umi_cigar_processing the clip is assumed 0 (the option documents that clips are ignored)',
-                 'no_overhang: reference modelled by spec.c09.WindowFasta (7 symbolic letters next to the read, pysam fetch contract: negative start raises); ground truth = CATG occurrence nearest to the read inside the 7-base window, bases before the contig start do not exist'],
+                 'no_overhang L5: symbolic window restricted (claim) to strings without lower-case characters, for which str.upper() is the identity as modelled; L5b: CATG with every subset of its letters lower-cased at every offset of the window', 'no_overhang: reference modelled by spec.c09.WindowFasta (7 symbolic letters next to the read, pysam fetch contract: negative start raises); ground truth = CATG occurrence nearest to the read inside the 7-base window, bases before the contig start do not exist'],
     trusted=['stubs/fakeread.py', 'spec/c09.py oracle'],
 )
